@@ -389,6 +389,8 @@ def run(rep, programs):
     # persistent write order of the one multi-step transition recovery cannot re-derive: splitting a huge frame
     from props import c03
     c03.r_split_order(rep, prog)
+    from props import c06
+    c06.r_fill_writes(rep, prog)      # recover repairs with Bitfield::fill(false)
     r_recover_domain(rep, prog)
     r_recover_complete(rep, prog)
     r_recover_flow(rep, prog)
